@@ -125,9 +125,31 @@ def install(modules=DEFAULT_MODULES, names=None):
             m.__dict__["codecs"] = _Codecs()
         done.append(mn)
     _installed.extend(done)
+    _wrap_cst_text()
     return done
+
+
+def _wrap_cst_text():
+    "pass-through wrapper of cst.__unicode__ that tells the engine which concrete constants were rendered"
+    import amoco.cas.expressions as E
+    from .core import Ctx
+    if getattr(E.cst.__unicode__, "_symx", False):
+        return
+    orig = E.cst.__unicode__
+
+    def __unicode__(self):
+        r = orig(self)
+        c = Ctx.cur
+        if c is not None and c.markers is not None:
+            v = self.v
+            if _isinstance(v, _int) and not _isinstance(self.value, SInt):
+                c.note_rendered(self.value)
+        return r
+    __unicode__._symx = True
+    E.cst.__unicode__ = __unicode__
 
 
 def describe():
     return ["module-namespace shim %s in: %s" % (k, ", ".join(sorted(set(_installed)))) for k in SHIMS] + \
-        ["codecs.encode shim (log messages only) in modules that import codecs"]
+        ["codecs.encode shim (log messages only) in modules that import codecs",
+         "pass-through wrapper of cst.__unicode__ recording rendered concrete constants (text-based hashing of symbolic constants)"]
